@@ -1,10 +1,16 @@
 import ProductMD.Driver.Proto
+import ProductMD.Model.Customs
 /-! driver ops: generic Python-value model (JSON text rendering) -/
 namespace PM.Driver.OpsPy
 open Lean PM PM.Driver
 
 def ops : List (String × (Json → Json)) :=
   [("json_dumps", fun a => jstr (JsonText.dumps (toPy (get a "v")))),
+   ("validate", fun a =>
+      let o : Obj := match toPy (get a "obj") with | .dict kvs => kvs | _ => []
+      match validateClass (String.ofList (getStrD a "cls")) o with
+      | .ok () => jok Json.null
+      | .error e => errJson e),
    ("py_eq", fun a => Json.bool (PyVal.pyEq (toPy (get a "a")) (toPy (get a "b"))))]
 
 end PM.Driver.OpsPy
